@@ -557,7 +557,13 @@ func (s *Server) cmdNearby(msg *Message) (res resp.Value, err error) {
 			}
 			return keepGoing
 		}
-		maxDist := sargs.obj.(*geojson.Circle).Meters()
+		circle, ok := sargs.obj.(*geojson.Circle)
+		if !ok {
+			// BUFFER turns the search circle into a polygon; a nearest
+			// neighbour search has no use for that
+			return NOMessage, errInvalidArgument("BUFFER")
+		}
+		maxDist := circle.Meters()
 		if sargs.sparse > 0 {
 			if maxDist < 0 {
 				// error cannot use SPARSE and KNN together
